@@ -15,7 +15,7 @@ TITLE = 'Decode then encode reproduces the layout that was written'
 
 T.ALPHABETS['c02roles'] = {
     'concepts': [T.ABSENT, 'x', 'a'],
-    'roles': [':ARG0', ':ARG0-of', ':consist-of', ':consist-of-of', ':mod-of', ':mod', ':domain-of~1'],
+    'roles': [':ARG0', ':ARG0-of~1', ':consist-of', ':consist-of-of', ':mod-of'],
     'atoms': ['k', '"s"~2'],
     'refs': 'all+aligned0',
 }
@@ -95,6 +95,7 @@ def check(case, ctx):
             ctx.fail(f'interpret/configure raised {type(e).__name__} under {name}', observed=str(e)[:200])
             return
         ctx.transitions += 1
+        ctx.validated += 1     # the expected tree (input minus empty concept slots) is the prediction
         if t2.node != want:
             ctx.fail(f'configure(interpret(t)) is not t under {name}', expected=want, observed=t2.node,
                      repro=f'import penman; from penman.tree import Tree; t=Tree({t!r}); print(penman.configure(penman.interpret(t, M), model=M))  # M = model {name}')
